@@ -6,7 +6,8 @@ from ..core import rule
 from ..index import AnalysisError, dotted, src, walk_no_nested, names_in
 from ..cfg import CFG, const_env_step, eval3, UNK, OTHER
 from ..domains import linform, Lin
-from ..util import interval_of_name_at, reach_expr, pred_is, node_calls, own_expr, last_name, calls_named, assigned_names, returned_names, is_call_to, enclosing_loops, loop_targets
+from ..consteval import fold
+from ..util import explore, mk_atoms, eval_local, reach_conds, interval_of_name_at, reach_expr, pred_is, node_calls, own_expr, last_name, calls_named, assigned_names, returned_names, is_call_to, enclosing_loops, loop_targets
 from .slots import LOADER, BASEDEMUX, FQITER, FQHANDLE, HANDLELIM, P
 
 DEMUX = P + 'modularDemultiplexer/demux.py'
@@ -407,25 +408,29 @@ def r5(ctx):
     okf = len(nt) == 1 and "'header sequence plus qual'" in src(nt[0].value)
     ctx.emit('C01-R5', okf, FQITER, nt[0] if nt else f, 'FastqRecord fields are (header, sequence, plus, qual) in file order', key='record-field-order', nontrivial=False)
     g = ctx.fn(FQITER, 'FastqIterator.__next__')
-    asg = [s for s in g.body if isinstance(s, ast.Assign) and isinstance(s.value, ast.Call) and dotted(s.value.func) == 'tuple']
-    def reads_every_handle(v):
-        for gexp in ast.walk(v):
+    # every handle is read exactly once per call (one comprehension over self.handles, no filter), before end-of-file is decided
+    def reading_comps(node):
+        out = []
+        for gexp in ast.walk(node):
             if isinstance(gexp, (ast.GeneratorExp, ast.ListComp)) and len(gexp.generators) == 1 and src(gexp.generators[0].iter) == 'self.handles' \
                     and not gexp.generators[0].ifs and isinstance(gexp.generators[0].target, ast.Name) and isinstance(gexp.elt, ast.Call) \
                     and last_name(dotted(gexp.elt.func) or '') == '_readFastqRecord' and [src(a) for a in gexp.elt.args] == [gexp.generators[0].target.id]:
-                return True
-        return False
-    okall = len(asg) == 1 and reads_every_handle(asg[0].value)
-    rec = asg[0].targets[0].id if asg and isinstance(asg[0].targets[0], ast.Name) else None
-    stops = [s for s in walk_no_nested(g) if isinstance(s, ast.If) and any(isinstance(x, ast.Raise) and 'StopIteration' in src(x) for x in s.body)]
+                out.append(gexp)
+        return out
+    comps = reading_comps(g)
+    okall = len(comps) == 1
+    raises = [x for x in walk_no_nested(g) if isinstance(x, ast.Raise) and 'StopIteration' in src(x)]
     okeof = False
     detail = 'no StopIteration test'
-    if len(stops) == 1 and rec:
-        t = stops[0].test
-        fields = {n.attr for n in ast.walk(t) if isinstance(n, ast.Attribute) and n.attr in ('header', 'sequence', 'plus', 'qual')}
-        idx = {src(n.slice) for n in ast.walk(t) if isinstance(n, ast.Subscript) and isinstance(n.slice, ast.Constant)}
-        okeof = (fields == {'header'} or (not fields and idx == {'0'})) and 'any(' in src(t) and rec in names_in(t) and asg[0].lineno < stops[0].lineno
-        detail = f'end of file test `{src(t)}` inspects {sorted(fields) or sorted(idx)}'
+    if len(raises) == 1 and okall:
+        conds = reach_conds(g.body, raises[0]) or []
+        tests = [t_ for t_, pol in conds]
+        # an enclosing loop over the records contributes nothing but the iteration itself
+        fields = {n.attr for t_ in tests for n in ast.walk(t_) if isinstance(n, ast.Attribute) and n.attr in ('header', 'sequence', 'plus', 'qual')}
+        idx = {src(n.slice) for t_ in tests for n in ast.walk(t_) if isinstance(n, ast.Subscript) and isinstance(n.slice, ast.Constant)}
+        before = comps[0].lineno <= raises[0].lineno
+        okeof = bool(tests) and (fields == {'header'} or (not fields and idx == {'0'})) and before
+        detail = f'end of file is raised under `{" and ".join(src(t_) for t_ in tests)}` which inspects {sorted(fields) or sorted(idx)}'
     ctx.emit('C01-R5', okall and okeof, FQITER, g, f'__next__: all handles are read before the test; {detail}' +
              ('' if okeof else ' - a read with an empty sequence (or a short file) would end or desynchronise the iteration'), key='eof-on-header',
              what='FastqIterator.__next__: end-of-file test does not inspect the header line of every mate')
@@ -442,18 +447,36 @@ def r5(ctx):
                        'the per-cell writer pairs ("R1","R2") with the records positionally; the loader passes the records of one pair in one write')
 def r6(ctx):
     i = ctx.fn(FQHANDLE, 'FastqHandle.__init__')
-    lists = [s for s in walk_no_nested(i) if isinstance(s, ast.Assign) and src(s.targets[0]) == 'self.handles' and isinstance(s.value, ast.List)]
-    okorder = False
-    for s in lists:
-        names = []
-        for e in s.value.elts:
-            lits = [c.value for c in ast.walk(e) if isinstance(c, ast.Constant) and isinstance(c.value, str) and 'fastq' in c.value]
-            names.append(lits[0] if lits else '?')
-        if len(names) == 2:
-            okorder = names[0].startswith('R1') and names[1].startswith('R2')
-        elif len(names) == 1:
-            okorder = okorder or names[0].startswith('R1')
-    ctx.emit('C01-R6', okorder and len(lists) == 2, FQHANDLE, i, 'joint writer opens R1 then R2 (paired) / R1 (single end)', key='open-order')
+    # the joint writer opens the mates in the order R1, R2 (paired) / R1 (single end): decided on the paths of the constructor for both
+    # settings, whether the handles are listed literally or built by a comprehension over the mate names
+    okorder = True
+    seen_orders = {}
+    for paired in (True, False):
+        facts = {'self.sc': False, 'single_cell': False, 'pairedEnd': paired, 'self.pe': paired}
+        rs = [r for r in explore(i.body, mk_atoms(facts), env0={'pairedEnd': paired, 'single_cell': False}) if r['kind'] in ('fall', 'return')]
+        orders = set()
+        for r in rs:
+            hv = [v for t, v, k in r['stores'] if t == 'self.handles']
+            if not hv:
+                orders.add(None)
+                continue
+            stmts_h = [x for x in walk_no_nested(i) if isinstance(x, ast.Assign) and src(x.targets[0]) == 'self.handles' and src(x.value) == hv[-1]]
+            val = stmts_h[0].value if stmts_h else None
+            names = None
+            if isinstance(val, ast.List):
+                names = []
+                for e in val.elts:
+                    lits = [c.value for c in ast.walk(e) if isinstance(c, ast.Constant) and isinstance(c.value, str) and 'fastq' in c.value]
+                    names.append(lits[0][:2] if lits else '?')
+            elif isinstance(val, (ast.ListComp, ast.GeneratorExp)) and len(val.generators) == 1 and not val.generators[0].ifs:
+                it = val.generators[0].iter
+                seq = fold(it) if not isinstance(it, ast.Name) else eval_local(i, it.id, {'pairedEnd': paired, 'single_cell': False, 'self.sc': False}, stop_at=val)
+                if isinstance(seq, (tuple, list)) and all(isinstance(x, str) for x in seq):
+                    names = [x[:2] for x in seq]
+            orders.add(tuple(names) if names is not None else None)
+        seen_orders[paired] = sorted(orders, key=str)
+        okorder = okorder and orders == {('R1', 'R2') if paired else ('R1',)}
+    ctx.emit('C01-R6', okorder, FQHANDLE, i, f'joint writer opens {seen_orders.get(True)} (paired) / {seen_orders.get(False)} (single end)', key='open-order')
     w = ctx.fn(FQHANDLE, 'FastqHandle.write')
     loops = [l for l in walk_no_nested(w) if isinstance(l, ast.For)]
     recs = w.args.args[1].arg if len(w.args.args) > 1 else '?'
